@@ -63,7 +63,7 @@ Qed.
 Lemma flagged_prog en en' sd nw m : prog en en' sd nw m ->
   (m = None /\ flagged en' = flagged en) \/ m = Some true.
 Proof.
-  intros (A & _ & C & _ & _ & _ & G). destruct G as [(G & Hm)|(_ & t & _ & _ & _ & Hm)]; subst m; [left|right; reflexivity].
+  intros (A & _ & C & _ & _ & _ & G). destruct G as [(G & Hm)|(t & _ & _ & _ & _ & Hm)]; subst m; [left|right; reflexivity].
   split; [reflexivity|]. unfold flagged. destruct sd; simpl in *; rewrite A, C, G; reflexivity.
 Qed.
 
@@ -97,7 +97,7 @@ Proof.
   pose proof (i_ents _ _ _ I e en He Hn) as EO.
   destruct (i_clke _ _ _ I e en Hn) as (Hmaxo & Hlgo).
   assert (Hmax': maxchg en' <= now (w_st w')).
-  { unfold maxchg, chgv in *. destruct Pchg as [(G & _)|(_ & t & G & _ & Ht & _)].
+  { unfold maxchg, chgv in *. destruct Pchg as [(G & _)|(t & G & _ & _ & Ht & _)].
     - destruct sd; simpl in *; rewrite Pother, G; lia.
     - destruct sd; simpl in *; rewrite Pother, G; simpl; lia. }
   assert (HI: InvP evl g w2).
@@ -149,9 +149,11 @@ Proof.
         { intros Hex. destruct (ProvModel.o_exists ob) eqn:El; [|reflexivity]. destruct (Flive eq_refl) as (X & _). congruence. }
         split; [right; right; exact Fr|]. split; [exact Fp|]. split.
         * intros Hd cs Hcs. destruct (fo_owner _ _ _ _ _ _ _ _ FO Hd cs Hcs) as (Q1 & Q2 & (r & Q3) & Q4 & _).
+          destruct (fo_owner2 _ _ _ _ _ _ _ _ FO Hd cs Hcs) as (_ & Q6).
           destruct (ProvModel.o_exists ob) eqn:El.
-          -- destruct (Flive eq_refl) as (_ & Xh & Xp). rewrite Xh. split; [right; exists (ProvModel.o_data ob); split; [reflexivity|rewrite Q3; left; reflexivity]|intros; discriminate].
-          -- destruct (Fdead eq_refl) as (_ & Xh & Xp). rewrite Xh, Xp. split; [exact Q1|exact Q4].
+          -- destruct (Flive eq_refl) as (_ & Xh & Xp). rewrite Xh, Xp.
+             split; [right; exists (ProvModel.o_data ob); split; [reflexivity|rewrite Q3; left; reflexivity]|]. split; intros; discriminate.
+          -- destruct (Fdead eq_refl) as (_ & Xh & Xp). rewrite Xh, Xp. split; [exact Q1|]. split; [exact Q4|exact Q6].
         * intros Hd Hcs. destruct (fo_mirror _ _ _ _ _ _ _ _ FO Hd Hcs) as (Ml & _). apply (Flive Ml).
       + intros Hno. destruct (Hnone Hno) as (X1 & X2 & X3). destruct (so_empty _ _ _ _ _ _ (eo_side _ _ _ _ _ EO sd) Hno) as (Y1 & Y2 & Y3 & _).
         rewrite X1, X2, X3. auto. }
